@@ -3,7 +3,6 @@
 package main
 
 import (
-	"runtime/debug"
 	"crypto/sha1"
 	"encoding/json"
 	"flag"
@@ -12,6 +11,7 @@ import (
 	"os/exec"
 	"path/filepath"
 	"regexp"
+	"runtime/debug"
 	"sort"
 	"strings"
 	"sync"
@@ -28,40 +28,42 @@ import (
 // ---- spec ------------------------------------------------------------------------
 
 type HarnessSpec struct {
-	Func    string                      `json:"func"`
-	Pkg     string                      `json:"pkg"` // repo-relative package dir; default: spec.Packages[0]
-	Kind    string                      `json:"kind"` // "check" (default) | "twin" (must be violated)
-	Tiers   map[string]map[string]int64 `json:"tiers"` // tier -> params; a tier that is absent skips the harness
-	Desc    string                      `json:"desc"`
-	Gates   map[string]string           `json:"gates"`
-	MaxPaths int                        `json:"max_paths"`
-	NoMerge bool                        `json:"no_merge"`
-	Merge   []string                    `json:"merge"`
-	Validate int                        `json:"validate"` // number of witness paths replayed natively (default 1)
-	Bounds  string                      `json:"bounds"`
+	Func     string                      `json:"func"`
+	Pkg      string                      `json:"pkg"`   // repo-relative package dir; default: spec.Packages[0]
+	Kind     string                      `json:"kind"`  // "check" (default) | "twin" (must be violated)
+	Tiers    map[string]map[string]int64 `json:"tiers"` // tier -> params; a tier that is absent skips the harness
+	Desc     string                      `json:"desc"`
+	Gates    map[string]string           `json:"gates"`
+	MaxPaths int                         `json:"max_paths"`
+	NoMerge  bool                        `json:"no_merge"`
+	Merge    []string                    `json:"merge"`
+	Redirect map[string]string           `json:"redirect"`
+	Validate int                         `json:"validate"` // number of witness paths replayed natively (default 1)
+	Bounds   string                      `json:"bounds"`
 }
 
 type Spec struct {
-	Property    string            `json:"property"`
-	Packages    []string          `json:"packages"`
-	Overlay     map[string]string `json:"overlay"` // repo-relative virtual path -> path relative to /verif/harness
-	PerfStub    bool              `json:"perf_stub"`
-	InitPkgs    []string          `json:"init_pkgs"`
-	Gates       map[string]string `json:"gates"`
-	Merge       []string          `json:"merge"`
-	Harnesses   []HarnessSpec     `json:"harnesses"`
-	Assumptions []string          `json:"assumptions"`
-	Stubs       []string          `json:"stubs"`
-	Outside     []string          `json:"outside"`
-	SolverTimeoutS map[string]int `json:"solver_timeout_s"`
+	Property       string            `json:"property"`
+	Packages       []string          `json:"packages"`
+	Overlay        map[string]string `json:"overlay"` // repo-relative virtual path -> path relative to /verif/harness
+	PerfStub       bool              `json:"perf_stub"`
+	InitPkgs       []string          `json:"init_pkgs"`
+	Gates          map[string]string `json:"gates"`
+	Merge          []string          `json:"merge"`
+	Redirect       map[string]string `json:"redirect"`
+	Harnesses      []HarnessSpec     `json:"harnesses"`
+	Assumptions    []string          `json:"assumptions"`
+	Stubs          []string          `json:"stubs"`
+	Outside        []string          `json:"outside"`
+	SolverTimeoutS map[string]int    `json:"solver_timeout_s"`
 }
 
 type KnownFinding struct {
 	Property string            `json:"property"`
 	Harness  string            `json:"harness"`
-	Label    string            `json:"label"`    // assertion label or panic message prefix
+	Label    string            `json:"label"` // assertion label or panic message prefix
 	What     string            `json:"what"`
-	Match    map[string]string `json:"match"` // optional: input name -> regexp on decimal value
+	Match    map[string]string `json:"match"`  // optional: input name -> regexp on decimal value
 	Status   string            `json:"status"` // "known" | "fixed"
 	Commit   string            `json:"commit,omitempty"`
 }
@@ -69,26 +71,26 @@ type KnownFinding struct {
 // ---- results -----------------------------------------------------------------------
 
 type harnessResult struct {
-	Spec        HarnessSpec
-	Params      map[string]int64
-	Paths       int
-	Branches    int
-	Status      map[string]int
-	Details     []string
-	Violations  []interp.Violation
-	Reached     map[string]int
-	AssertsSeen map[string]int
-	AssertsProved map[string]int
-	Witnesses   []witness
-	Calls       map[string]int64
-	Inputs      map[string]*interp.InputDecl
-	Wall        time.Duration
+	Spec                            HarnessSpec
+	Params                          map[string]int64
+	Paths                           int
+	Branches                        int
+	Status                          map[string]int
+	Details                         []string
+	Violations                      []interp.Violation
+	Reached                         map[string]int
+	AssertsSeen                     map[string]int
+	AssertsProved                   map[string]int
+	Witnesses                       []witness
+	Calls                           map[string]int64
+	Inputs                          map[string]*interp.InputDecl
+	Wall                            time.Duration
 	Merges, MergePaths, MergeAborts int
-	SolverUnknown int
-	Gates       map[string]bool
-	MaxDepth    int
-	Instrs      int64
-	Capped      bool
+	SolverUnknown                   int
+	Gates                           map[string]bool
+	MaxDepth                        int
+	Instrs                          int64
+	Capped                          bool
 }
 
 type witness struct {
@@ -188,30 +190,30 @@ func fatal(err error) {
 }
 
 type runner struct {
-	spec     *Spec
-	tier     string
-	workers  int
-	verbose  bool
-	seed     int
-	noNative bool
+	spec       *Spec
+	tier       string
+	workers    int
+	verbose    bool
+	seed       int
+	noNative   bool
 	qlog, dump string
 
-	prog    *ssa.Program
-	pkgs    map[string]*ssa.Package // by repo-relative dir
-	pkgName map[string]string
-	overlay map[string][]byte
+	prog     *ssa.Program
+	pkgs     map[string]*ssa.Package // by repo-relative dir
+	pkgName  map[string]string
+	overlay  map[string][]byte
 	loadTime time.Duration
 
-	results []*harnessResult
-	solver  map[string]*smt.Stats
-	goDropped map[string]int
+	results    []*harnessResult
+	solver     map[string]*smt.Stats
+	goDropped  map[string]int
 	initPoison int
 
 	nativeRuns, nativeAgree int
-	confirmed []confirmedViolation
-	known     []string
-	inconclusive []string
-	twinsOK   []string
+	confirmed               []confirmedViolation
+	known                   []string
+	inconclusive            []string
+	twinsOK                 []string
 }
 
 type confirmedViolation struct {
@@ -354,7 +356,14 @@ func (r *runner) explore(h HarnessSpec, params map[string]int64) *harnessResult 
 	if maxPaths == 0 {
 		maxPaths = 200000
 	}
-	env := &interp.Env{Params: params, Gates: gates, InitPkgs: r.initPkgs(), Verbose: r.verbose, NoMerge: h.NoMerge, Merge: append(append([]string{}, r.spec.Merge...), h.Merge...)}
+	redirect := map[string]string{}
+	for k, v := range r.spec.Redirect {
+		redirect[k] = v
+	}
+	for k, v := range h.Redirect {
+		redirect[k] = v
+	}
+	env := &interp.Env{Redirect: redirect, Params: params, Gates: gates, InitPkgs: r.initPkgs(), Verbose: r.verbose, NoMerge: h.NoMerge, Merge: append(append([]string{}, r.spec.Merge...), h.Merge...)}
 
 	var mu sync.Mutex
 	cond := sync.NewCond(&mu)
@@ -521,10 +530,10 @@ func labelKey(s string) string {
 }
 
 type replayCase struct {
-	Func   string           `json:"func"`
-	Pkg    string           `json:"pkg"`
-	Inputs map[string]any   `json:"inputs"`
-	Params map[string]int64 `json:"params"`
+	Func   string            `json:"func"`
+	Pkg    string            `json:"pkg"`
+	Inputs map[string]any    `json:"inputs"`
+	Params map[string]int64  `json:"params"`
 	Gates  map[string]string `json:"gates,omitempty"`
 	// expectation (informational in the file; used by the driver)
 	Label    string `json:"label,omitempty"`
@@ -534,13 +543,13 @@ type replayCase struct {
 }
 
 type nativeOutcome struct {
-	Failed   map[string]bool
-	Panic    string
-	Reached  map[string]int
-	Observes map[string]string
+	Failed      map[string]bool
+	Panic       string
+	Reached     map[string]int
+	Observes    map[string]string
 	AssumeFalse bool
-	Ran      bool
-	Raw      string
+	Ran         bool
+	Raw         string
 }
 
 // runNative runs the given cases through `go test -overlay` (one invocation per package).
